@@ -51,7 +51,9 @@ br_ecdsa_i15_vrfy_raw(const br_ec_impl *impl,
 	/*
 	 * If the curve is not supported, then report an error.
 	 */
-	if (((impl->supported_curves >> pk->curve) & 1) == 0) {
+	if (pk->curve < 0 || pk->curve >= 32
+		|| ((impl->supported_curves >> pk->curve) & 1) == 0)
+	{
 		return 0;
 	}
 
